@@ -266,6 +266,13 @@ class Interp:
             return True
         if z3.is_false(cond):
             return False
+        if self.state.get("generic_depth"):
+            # generic iteration of a summarised comprehension: a branch must be settled by what is known about a generic
+            # element (nothing is recorded: the facts about the generic element are local to the summarisation)
+            r = self.prune(self, cond) if self.prune is not None else None
+            if r is None:
+                raise OutOfSubset(f"branch on the generic element of a summarised comprehension: {str(cond)[:160]}")
+            return r
         if self.pos < len(self.dec):
             d = self.dec[self.pos]
             self.pos += 1
